@@ -959,6 +959,27 @@ class MethodCtx:
         if isinstance(e, ast.Tuple):
             parts = [self.expr(x, env) for x in e.elts]
             return "(" + ", ".join(x for x, _ in parts) + ")", ("tuple", [t for _, t in parts])
+        if isinstance(e, ast.ListComp):
+            # [x for x in L if cond]  (one generator, the element itself, at most one condition)  ==> filter
+            if len(e.generators) != 1 or e.generators[0].is_async or len(e.generators[0].ifs) > 1:
+                _u(e, "list comprehension shape")
+            g = e.generators[0]
+            if not (isinstance(g.target, ast.Name) and isinstance(e.elt, ast.Name) and e.elt.id == g.target.id) or g.target.id == "self":
+                _u(e, "list comprehension must select the elements themselves")
+            l, lt = self.expr(g.iter, env)
+            if not (isinstance(lt, tuple) and lt[0] == "list"):
+                _u(e, "comprehension over a non-list")
+            if not g.ifs:
+                return l, lt
+            if any(self._is_dict_read(n, env) for n in ast.walk(g.ifs[0])):
+                _u(e, "raising read inside a comprehension condition")
+            benv = env.copy()
+            benv.locals[g.target.id] = lt[1]
+            benv.narrow.pop(g.target.id, None)
+            c, ct = self.expr(g.ifs[0], benv)
+            if ct != "B":
+                _u(e, "comprehension condition must be boolean")
+            return f"(filter (fun {g.target.id} => {c}) {l})", lt
         _u(e, "unsupported expression")
 
     def float_lit(self, v, node):
@@ -1183,6 +1204,23 @@ class MethodCtx:
                 if isinstance(t, tuple) and t[0] == "list" or t == "dict":
                     return f"(Z.of_nat (length {x}))", "Z"
                 _u(e, "len of a non-list")
+            if f.id == "sorted" and len(e.args) == 1 and len(e.keywords) == 1 and e.keywords[0].arg == "key" \
+                    and isinstance(e.keywords[0].value, ast.Lambda):
+                # sorted(L, key=lambda x: <integer expression of x>): stable sort on an integer key
+                lam = e.keywords[0].value
+                if len(lam.args.args) != 1 or lam.args.vararg or lam.args.kwarg or lam.args.defaults:
+                    _u(e, "sort key lambda")
+                x = lam.args.args[0].arg
+                l, lt = self.expr(e.args[0], env)
+                if not (isinstance(lt, tuple) and lt[0] == "list") or x == "self":
+                    _u(e, "sorted() of a non-list")
+                benv = env.copy()
+                benv.locals[x] = lt[1]
+                benv.narrow.pop(x, None)
+                k, kt = self.expr(lam.body, benv)
+                if kt not in ZLIKE:
+                    _u(e, "sort key must be an integer")
+                return f"(py_sorted_by (fun {x} => {k}) {l})", lt
             if f.id == "float" and len(e.args) == 1:
                 x, t = self.expr(e.args[0], env, "F")
                 if t == "F":
